@@ -426,20 +426,26 @@ def run_matrix(work, tus, cfgs, seed, compile_timeout=900, case_timeout=60, log=
     # heavy TUs first
     jobs.sort(key=lambda j: (-j[0].weight, 0 if j[1].san else 1))     # long poles (heavy TUs, sanitizer builds) first
     events = []
-    sem = threading.Semaphore(NPROC)
     lock = threading.Lock()
+    # worker slots are taken ALL AT ONCE under one condition variable: taking them one by one from a semaphore lets two heavy jobs
+    # each hold part of the pool and wait for the rest for ever
+    slots = threading.Condition()
+    avail = [NPROC]
     stats = {'compile_s': 0.0, 'run_s': 0.0, 'jobs': 0, 'slowest': [], 'pairs_total': total_pairs, 'pairs_run': len(jobs)}
 
     def one(job):
         tu, cfg = job
         w = min(tu.weight, NPROC)
-        for _ in range(w):
-            sem.acquire()
+        with slots:
+            while avail[0] < w:
+                slots.wait()
+            avail[0] -= w
         try:
             return build_and_run(work, tu, cfg, seed, compile_timeout, case_timeout)
         finally:
-            for _ in range(w):
-                sem.release()
+            with slots:
+                avail[0] += w
+                slots.notify_all()
 
     with ThreadPoolExecutor(max_workers=NPROC) as ex:
         futs = {ex.submit(one, j): j for j in jobs}
